@@ -170,8 +170,13 @@ def _check_table(rec, idx, workdir, seed, corrupt=None):
             if [dp.idx for dp in data] != list(range(len(data))):
                 probs.append(("C17|numbering", "data point indices %s" % [dp.idx for dp in data], rep))
             if kept and list(samples) != samples_sorted:
-                probs.append(("C17|sample_order", "samples %s, expected %s" % (list(samples), samples_sorted), rep))
-                break
+                # purely numeric sample ids: "sorted" may be read as text order or as numeric order - both are accepted
+                numeric = all(x.isdigit() for x in samples_sorted)
+                if numeric and [str(x) for x in samples] == sorted(samples_sorted, key=int):
+                    samples_sorted = [str(x) for x in samples]
+                else:
+                    probs.append(("C17|sample_order", "samples %s, expected %s" % (list(samples), samples_sorted), rep))
+                    break
             cells = {(MUT[c["m"]], SAM[c["s"]]): c for c in rec["cells"]}
             for dp in data:
                 dp_name = str(dp.name)
